@@ -164,7 +164,16 @@ def job(ctx, i):
                 'ops_kept': sum(1 for o in small['ops']
                                 if o['op'] != 'nop'),
                 'original_ops': len(plan['ops']), 'replayed_ok': oks}
-        # what does the violation need?
+        # what does the violation need?  (an unminimised plan still carries
+        # every annotation: strip them wholesale first)
+        for ann in ('nest', 'fault'):
+            if any(ann in o for o in small['ops']):
+                stripped = dict(small)
+                stripped['ops'] = [dict((k2, v2) for k2, v2 in o.items()
+                                        if k2 != ann) for o in small['ops']]
+                if c07._violates(stripped, v['class'], ctx['timeout'])[0]:
+                    small = stripped
+                    body['plan'] = small
         needs_nest = any('nest' in o for o in small['ops'])
         fault_ops = [k for k, o in enumerate(small['ops']) if 'fault' in o]
         window = None
